@@ -70,7 +70,7 @@ def run(out, info, tier, seed):
                        'outside the quantifier: several connections into one slot (unique_slots), persistent attributes not produced at every step (persistent_complete)']
     sched_check.sched_property(out, info, tier, seed, 'C03', KINDS, monitor, gen_opts=dict(groups=True, clean=0.75),
                                case_gen=case_gen,
-                               ncases=(130, 2000), variants=[(True, True), (False, True), (True, False), (False, False)],
+                               ncases=(220, 2500), variants=[(True, True), (False, True), (True, False), (False, False)],
                                nontrivial=nontrivial, features=features, hyp=hyp, known_match=known_match,
                                extra_obligations=[('Sched.DataP (buffer, cache, pruning lemmas)', 'Sched/DataP'),
                                                   ('Sched.PullRun (whole-run characterisation of pulled inputs)', 'Sched/PullRun'),
